@@ -305,6 +305,11 @@ impl<T: Composer> Stage<T> {
             (Stage::Ad(b), 0) => Stage::Q(b.question()),
             (Stage::Ad(b), 1) => Stage::An(b.answer()),
             (Stage::Ad(b), 2) => Stage::Au(b.authority()),
+            // The identity conversions (documented to do nothing).
+            (Stage::Q(b), 0) => Stage::Q(b.question()),
+            (Stage::An(b), 1) => Stage::An(b.answer()),
+            (Stage::Au(b), 2) => Stage::Au(b.authority()),
+            (Stage::Ad(b), 3) => Stage::Ad(b.additional()),
             (other, _) => other,
         }
     }
@@ -780,11 +785,11 @@ fn gen_ops(pool: &[String], size_class: u64) -> Vec<Op> {
             }
             2 => ops.push(Op::Rewind),
             7 if sim::chance("ops.goto", 1, 2) => {
+                // (Also to the section the builder is in: a helper that
+                // takes "any builder" converts without looking.)
                 let to = sim::draw("ops.goto_to", 4) as u8;
-                if to != section {
-                    ops.push(Op::Goto(to));
-                    section = to;
-                }
+                ops.push(Op::Goto(to));
+                section = to;
             }
             8 if sim::chance("ops.to_builder", 1, 4) => {
                 ops.push(Op::ToBuilder);
